@@ -1,5 +1,7 @@
 package geom
 
+import "math"
+
 // Tiny Well Known Binary
 // See spec https://github.com/TWKB/Specification/blob/master/twkb.md
 
@@ -39,4 +41,22 @@ func decodeZigZagInt64(z uint64) int64 {
 // it to produce an encoded uint64 value.
 func encodeZigZagInt64(n int64) uint64 {
 	return uint64((n << 1) ^ (n >> 63))
+}
+
+// twkbScaleUp gives v * 10^prec. Negative precisions divide by the (exactly
+// representable) positive power of ten rather than multiplying by its inexact
+// reciprocal.
+func twkbScaleUp(v float64, prec int) float64 {
+	if prec < 0 {
+		return v / math.Pow10(-prec)
+	}
+	return v * math.Pow10(prec)
+}
+
+// twkbScaleDown gives v / 10^prec, see twkbScaleUp.
+func twkbScaleDown(v float64, prec int) float64 {
+	if prec < 0 {
+		return v * math.Pow10(-prec)
+	}
+	return v / math.Pow10(prec)
 }
